@@ -91,7 +91,8 @@ def rule_beh(rule, doc):
     ok, rt = call(rule.test, M.deep_copy(doc))
     if not ok:
         return ("raise", rt.type)
-    return (rt.is_valid, rt.tested, tuple(canon(tuple(f.path)) for f in rt.failures), canon(rt.data.get_original()))
+    return (rt.is_valid, rt.tested, tuple(canon(tuple(f.path)) for f in rt.failures), canon(rt.data.get_original()),
+            tuple((canon(f.value), tuple(f.reasons)) for f in rt.failures))
 
 
 def schema_beh(s, doc):
@@ -99,7 +100,8 @@ def schema_beh(s, doc):
     if not ok:
         return ("raise", vd.type)
     return (vd.is_valid, vd.num_failures, vd.num_rules_tested, canon(vd.cast_data),
-            tuple(tuple(canon(tuple(f.path)) for f in t.failures) for t in vd.rule_tests))
+            tuple(tuple(canon(tuple(f.path)) for f in t.failures) for t in vd.rule_tests),
+            tuple(tuple((canon(f.value), tuple(f.reasons)) for f in t.failures) for t in vd.rule_tests))
 
 
 def roundtrip(ctx, obj, cls, tag, ctail):
@@ -214,5 +216,17 @@ def run(case, ctx):
             m = M.schema_model(rules, doc)
             if m is not M.SKIP and a[0] != "raise" and (a[0] is not m["valid"] or a[3] != canon(m["cast_data"])):
                 ctx.violate(f"C13/behaviour-vs-model/schema/{ctail}", "verdict / cast data differ from the model")
+    # a schema listing the very same rule object at several positions
+    if objs and len(repr(rules)) % 3 == 0:
+        ok, s2 = call(valida.Schema, list(objs) + [objs[0]] + ([objs[-1]] if len(objs) > 1 else []))
+        if ok:
+            ctx.count("schema-with-one-rule-object-listed-twice")
+            res = roundtrip(ctx, s2, valida.Schema, "schema", "same-rule-object-twice")
+            if res is not None:
+                back, j = res
+                a, b = schema_beh(s2, doc), schema_beh(back, doc)
+                if a != b or len(back.rules) != len(s2.rules):
+                    ctx.violate("C13/behaviour/schema/same-rule-object-twice", f"{len(s2.rules)} rules (one object listed twice) -> "
+                                f"{len(back.rules)} rules after the round trip; original {str(a)[:300]}\n rebuilt {str(b)[:300]}")
     for name, detail in mon.CONTRACTS.take():
         ctx.violate(f"C13/contract:{name}", detail)
